@@ -170,6 +170,6 @@ Proof. exact tree_codec_bindings. Qed.
 Print Assumptions C07_tree_codec_bindings.
 Theorem C07_stateless_kinds_take_nothing :
   forallb (fun c => if existsb (String.eqb (ctor_tree c)) ["alphaSortedTree"; "unsignedSortedTree"; "signedSortedTree"; "floatSortedTree"]%string
-                    then Nat.eqb (List.length (ctor_fields c)) 0 else true) Bindings.constructors = true.
+                    then Nat.eqb (List.length (codec_fields (ctor_fields c))) 0 else true) Bindings.constructors = true.
 Proof. exact stateless_kinds_take_nothing. Qed.
 Print Assumptions C07_stateless_kinds_take_nothing.
